@@ -50,6 +50,7 @@ pub struct Snap {
     /// every (id, hash) the block ring lists, on the longest chain or not
     pub ring_entries: Vec<Vec<[u8; 32]>>,
     pub wallet_slips: Vec<UtxoKey>,
+    pub wallet_slip_fields: Vec<(UtxoKey, u64, u64, u64, u8, bool)>,
     pub wallet_unspent: Vec<UtxoKey>,
     pub wallet_balance: u64,
 }
@@ -60,6 +61,9 @@ pub fn snapshot(n: &Node, max_id: u64) -> Snap {
     let w = crate::util::block_on(n.wallet.read());
     let mut ws: Vec<UtxoKey> = w.slips.keys().cloned().collect();
     ws.sort();
+    // every field of every wallet slip, not only its key (the wallet rebuilds inputs from these fields)
+    let mut wd: Vec<(UtxoKey, u64, u64, u64, u8, bool)> = w.slips.iter().map(|(k, s)| (*k, s.amount, s.block_id, s.tx_ordinal, s.slip_index, s.spent)).collect();
+    wd.sort();
     let mut wu: Vec<UtxoKey> = w.unspent_slips.iter().cloned().collect();
     wu.sort();
     Snap {
@@ -77,6 +81,7 @@ pub fn snapshot(n: &Node, max_id: u64) -> Snap {
             })
             .collect(),
         wallet_slips: ws,
+        wallet_slip_fields: wd,
         wallet_unspent: wu,
         wallet_balance: w.get_available_balance(),
     }
@@ -100,6 +105,9 @@ pub fn snap_diff(a: &Snap, b: &Snap) -> Option<&'static str> {
     }
     if a.wallet_slips != b.wallet_slips || a.wallet_unspent != b.wallet_unspent || a.wallet_balance != b.wallet_balance {
         return Some("wallet");
+    }
+    if a.wallet_slip_fields != b.wallet_slip_fields {
+        return Some("wallet-slip-fields");
     }
     None
 }
@@ -168,7 +176,7 @@ impl Scenario for C04 {
     fn meta(&self) -> Meta {
         Meta {
             level: "exploration",
-            rule: "run = shared prefix + main chain (0..M blocks) + candidate chain (1..F blocks, longer than main) whose block at bad_pos carries one of 11 header/transaction edits that only validation notices (re-signed, so decodable and self-consistent) or, in a quarter of the runs, a transaction whose input is not spendable on that branch (already spent by an ancestor, or never existed); candidate blocks are delivered in order, so the ones not longer than main are stored unvalidated and the first longer one triggers the reorganisation attempt (when the candidate sits directly on the tip, in a sixth of all runs (candidate of 3-5 blocks on the tip) its second block is delivered before its first, so that a multi-block candidate with an empty old segment is wound); optional disk read fault on the n-th block-file read of that call; prune depth 1..8 so that unwinding needs Pruned->Full upgrades. A twelfth of the runs is the ring family: a producer chain with genesis period 3..6 (block ring of 2 x gp slots) is given to a fresh node up to K-2, then block K before K-1, then an invalid child of K, with K on / next to a multiple of the ring size. Oracle: full snapshot {tip, spendable set, index for all ids, stored blocks + on-chain flags, every (id, hash) entry of the block ring, wallet slips/unspent/balance} before == after every call that does not return BlockAddedSuccessfully; step budget 8*(|new|+|old|)+16 on the wind/unwind loop; afterwards the node must still extend its chain. distinct_nontrivial = distinct (|main|, |cand|, bad_pos, kind, disk fault, prune depth) whose triggering call entered validation and was rejected.",
+            rule: "run = shared prefix + main chain (0..M blocks) + candidate chain (1..F blocks, longer than main) whose block at bad_pos carries one of 11 header/transaction edits that only validation notices (re-signed, so decodable and self-consistent) or, in a quarter of the runs, a transaction whose input is not spendable on that branch (already spent by an ancestor, or never existed); candidate blocks are delivered in order, so the ones not longer than main are stored unvalidated and the first longer one triggers the reorganisation attempt (when the candidate sits directly on the tip, in a sixth of all runs (candidate of 3-5 blocks on the tip) its second block is delivered before its first, so that a multi-block candidate with an empty old segment is wound); optional disk read fault on the n-th block-file read of that call; prune depth 1..8 so that unwinding needs Pruned->Full upgrades. A twelfth of the runs is the ring family: a producer chain with genesis period 3..6 (block ring of 2 x gp slots) is given to a fresh node up to K-2, then block K before K-1, then an invalid child of K, with K on / next to a multiple of the ring size. Oracle: full snapshot {tip, spendable set, index for all ids, stored blocks + on-chain flags, every (id, hash) entry of the block ring, wallet slips (every field)/unspent/balance} before == after every call that does not return BlockAddedSuccessfully; step budget 8*(|new|+|old|)+16 on the wind/unwind loop; afterwards the node must still extend its chain. distinct_nontrivial = distinct (|main|, |cand|, bad_pos, kind, disk fault, prune depth) whose triggering call entered validation and was rejected.",
             real: &["Blockchain::add_block/validate/wind_chain/unwind_chain/add_block_failure", "Block::validate/upgrade_block_to_block_type", "BlockRing", "Wallet::on_chain_reorganization", "Storage"],
             stubs: &["SimIo (in-memory disk with read faults)", "SimConfig", "vendored ahash"],
             assumptions: &["transaction-level invalidity is C01's (Block::validate verdict on transactions)", "genesis period >> chain length", "block cache type (Pruned/Full) is not part of the compared state"],
